@@ -389,10 +389,15 @@ def ins(t):
                 args = [["opaque", "args"]]
             return ["call", a] + args
         return ["opaque", "bin-" + op]
-    if name == "AnonymousFunction":
-        return "(fn)"
-    if name == "FunctionDeclaration":
-        return "(fndecl)"
+    if name in ("AnonymousFunction", "FunctionDeclaration"):
+        ps = f["params"]
+        while ps[0] == "tuple":              # Params([..])
+            ps = ps[2][0]
+        params = [[q[2]["name"][1], ty(q[2]["var_type"])] for q in ps[1]]
+        body = [ins(y) for y in f["body"][1]]
+        if name == "AnonymousFunction":
+            return ["fn", params, ty(f["return_type"])] + body
+        return ["fndecl", f["ident"][1], params, ty(f["return_type"])] + body
     return ["opaque", name]
 
 
